@@ -349,11 +349,13 @@ func runC01case(cs c01case) (o c01obs) {
 			if c01isSend(op.kind) {
 				want = cs.cmds[op.ci].cmd
 			}
-			if line != want {
+			if strings.TrimRight(line, " \t") != strings.TrimRight(want, " \t") {
 				// not what the next operation sends (a stray return, a mangled command): the device
 				// answers with its prompt alone and still waits for that operation
 				return ""
 			}
+			// (a device does not care about blanks at the end of a line: it runs the command; what it
+			// received is judged byte for byte against the command in the device-side log)
 			k++
 			if op.stopAt >= 0 {
 				cur = facts.C01Interim[op.stopAt].Text
